@@ -10,6 +10,27 @@ from mc import domains as D
 from mc.alias import Keeper
 from mc.rec import Rec, unhex
 
+import builtins
+
+_REC = None  # the recorder of the running shard / replay (for the hash wrapper below)
+
+
+def hash(x):  # noqa: A001 - deliberately shadows the builtin inside this module
+    """hash() that turns "unhashable" into a verdict instead of a harness crash: the property says equality and hashing
+    depend on exactly (value, width), so every field must be hashable.  Returns a sentinel that never equals an int."""
+    try:
+        return builtins.hash(x)
+    except TypeError as e:
+        name = type(x).__name__
+        if _REC is not None:
+            try:
+                w, v = len(x), int(x)
+            except Exception:
+                w, v = None, None
+            _REC.violation(f"C20.hash/{name}.__hash__/unhashable", {"kind": "unhashable", "cls": name, "w": w, "v": v}, repr(e), "an int depending on exactly (value, width)",
+                           repro=f"from spacepackets.util import *; hash({name}({'' if name == 'ByteFieldEmpty' else 0}))")
+        return ("unhashable", name)
+
 PROPERTY = "C20"
 LEVEL = "model_checking"  # bounded-exhaustive enumeration of executions against a reference model (DESIGN.md 1, 2.1)
 EXHAUSTIVE = True
@@ -732,8 +753,9 @@ def as_signed(pattern, w):
 
 # ---------------------------------------------------------------------- run_shard
 def run_shard(item):
+    global _REC
     _fresh_library()
-    rec = Rec(PROPERTY, item)
+    rec = _REC = Rec(PROPERTY, item)
     kind = item["kind"]
     if kind == "full":
         w = item["w"]
@@ -911,10 +933,23 @@ def run_shard(item):
 
 # ------------------------------------------------------------------------- replay
 def replay(case):
+    global _REC
     _fresh_library()
-    rec = Rec(PROPERTY, "replay")
+    rec = _REC = Rec(PROPERTY, "replay")
     case = unhex(case)
     k = case["kind"]
+    if k == "unhashable":
+        import spacepackets.util as u
+        rec.case(True, ops=1)
+        cls = getattr(u, case["cls"])
+        for args in ((), (0,), (0, 0), (0, 1), (1, 0)):
+            try:
+                obj = cls(*args)
+            except Exception:
+                continue
+            hash(obj)
+            break
+        return rec.result()
     if k == "field":
         check_field(rec, case["w"], int(case["v"]))
     elif k == "refuse_value":
